@@ -31,6 +31,7 @@ class Ctx:
     def __init__(self, prog):
         self.prog = prog
         self.ret_shapes = {}
+        self.ret_exprs = {}
         self.top_interps = {}
         self.write_sets = {}
         self.in_progress = set()
@@ -118,6 +119,25 @@ class Ctx:
                 unknown = True
         res = None if unknown else ws
         self.write_sets[key] = res
+        return res
+
+    def ret_expr(self, key):
+        """for a side-effect-free local function whose result is one expression over its parameters
+        (a trivial constructor / getter): that expression in callee terms, else None"""
+        if key in self.ret_exprs:
+            return self.ret_exprs[key]
+        res = None
+        it = self.top_interp(key)
+        if it is not None and not it.writes and len(it.body.blocks) <= 6:
+            from . import summaries
+            vals = []
+            for bi in it.body.return_blocks:
+                S = it.exit_state(bi)
+                if S is not None and not S.dead:
+                    vals.append(S.read((it.L(0), ())))
+            if len(vals) == 1 and summaries.is_entry_expr(vals[0]) and not is_const(vals[0]):
+                res = vals[0]
+        self.ret_exprs[key] = res
         return res
 
     def ret_shape(self, key):
@@ -711,8 +731,15 @@ class Interp:
 
     def default_call(self, S, t, callee, args, name):
         path = callee.get("path") or "indirect"
-        R = ("call", self.site(), path)
         dest = Place(t["dest"])
+        if path in self.prog.bodies:
+            tmpl = self.ctx.ret_expr(path)
+            if tmpl is not None:
+                from . import summaries
+                v = summaries.translate(tmpl, self, S, args, self.prog.bodies[path].arg_count)
+                if v is not None:
+                    return v
+        R = ("call", self.site(), path)
         set_ty(R, tykey(dest.ty))
         local = path in self.prog.bodies
         S_pre = S.copy() if local else None
@@ -946,6 +973,8 @@ def stable(sv, depth=0):
         return "agg"
     if h == "ref":
         return "&%s" % stable_loc(sv[1], depth + 1)
+    if h == "model":
+        return "%s(%s)" % (sv[1], ",".join(r(x) for x in sv[2:] if not (isinstance(x, tuple) and x and x[0] == "site")))
     return h
 
 
